@@ -17,8 +17,8 @@
      @no_gc)                                                                              [opt/src/passes/inline]
    * run_fast puts no_gc_depth back to its value at entry when the run ends with an error
      (before the repair of KF-C13-2 nothing did; `run_vm_raw` is the run without that step) *)
-From Coq Require Import NArith ZArith Bool List.
-From Aelys Require Import Extracted.NoGcConsts.
+From Coq Require Import NArith ZArith Bool List String.
+From Aelys Require Import Extracted.NoGcConsts Extracted.GcRootFields.
 Import ListNotations.
 Local Open Scope N_scope.
 
@@ -117,6 +117,31 @@ Definition emit_fn (ord : ret_order) (inl : bool) (P : list fn) (f : fn) : code 
        (KSeq (emit_stmt ord inl P (f_nogc f) (f_body f))
              (KSeq (kflag (f_nogc f) KExit) KRet)).
 Definition emit_tbl (ord : ret_order) (inl : bool) (P : list fn) : list code := map (emit_fn ord inl P) P.
+
+(* ------------------------------------------------------------------ which source constructs are safepoints
+   KSafe stands for any instruction that calls VM::maybe_collect.  The list of those call sites is regenerated from the
+   source by C03's translator (Extracted.GcRootFields.safepoint_sites: file, enclosing function / opcode arm); the
+   constructs of the language that reach them: *)
+Inductive construct :=
+| CStringConcat        (* `a + b` on strings: Add -> try_concat_strings *)
+| CManualAlloc         (* alloc(n): opcode 28 *)
+| CFnDecl              (* declaration of a function without captures (top-level or nested): LoadK of a nested-function marker, opcode 2 *)
+| CClosureDecl.        (* declaration of a nested function / lambda WITH captures: MakeClosure, opcode 35 *)
+Definition all_constructs : list construct := [CStringConcat; CManualAlloc; CFnDecl; CClosureDecl].
+Definition construct_site (c : construct) : string * string :=
+  match c with
+  | CStringConcat => ("vm/arithmetic/strings.rs", "fn try_concat_strings")
+  | CManualAlloc => ("vm/dispatch/ops/memory.inc", "op28")
+  | CFnDecl => ("vm/dispatch/ops/load_store.inc", "op2")
+  | CClosureDecl => ("vm/dispatch/ops/closures.inc", "op35")
+  end%string.
+(* what the emission model produces for the construct: one safepoint instruction *)
+Definition construct_code (c : construct) : code := KSafe.
+Definition site_eqb (a b : string * string) : bool := (String.eqb (fst a) (fst b) && String.eqb (snd a) (snd b))%bool.
+(* the model's constructs and the extracted call sites of maybe_collect are the same set *)
+Definition sites_covered : bool :=
+  forallb (fun s => existsb (fun c => site_eqb (construct_site c) s) all_constructs) safepoint_sites &&
+  forallb (fun c => existsb (fun s => site_eqb (construct_site c) s) safepoint_sites) all_constructs.
 
 (* ------------------------------------------------------------------ (iii) path semantics (all paths) *)
 Inductive ev := VEnter | VExit | VSafe | VCall (f : nat).
